@@ -68,6 +68,12 @@ func Walk(ctx context.Context, fileSystem fs.FS, prefix, delimiter, marker strin
 		}
 	}
 
+	// a walk that starts below a skipped directory would list what is
+	// skipped when the walk comes to that directory from above
+	if belowSkipped(root, skipdirs) {
+		return WalkResults{}, nil
+	}
+
 	err := fs.WalkDir(fileSystem, root, func(path string, d fs.DirEntry, err error) error {
 		if err != nil {
 			return err
@@ -265,6 +271,17 @@ func Walk(ctx context.Context, fileSystem fs.FS, prefix, delimiter, marker strin
 		Truncated:      truncated,
 		NextMarker:     newMarker,
 	}, nil
+}
+
+// belowSkipped reports whether one of the path elements of root is a
+// directory that the walk skips
+func belowSkipped(root string, skipdirs []string) bool {
+	for _, elem := range strings.Split(root, "/") {
+		if contains(elem, skipdirs) {
+			return true
+		}
+	}
+	return false
 }
 
 func contains(a string, strs []string) bool {
